@@ -65,6 +65,20 @@ def usort(name):
 NUM = ('nat', 'int', 'real')
 
 
+def literal_list(t):
+    """[t1, ..., tn] for a cons/nil chain, else None."""
+    out = []
+    while True:
+        if t.is_const() and t.name == 'nil':
+            return out
+        if t.is_comb() and t.fun.is_comb() and t.fun.fun.is_const() and t.fun.fun.name == 'cons':
+            out.append(t.fun.arg)
+            t = t.arg
+            continue
+        return None
+
+
+
 class Enc:
     """Array/lambda encoding."""
 
@@ -261,6 +275,11 @@ class Enc:
             else:
                 body_y = z3.Select(tr(P), y)
             return z3.Exists([x], z3.And(g, body, z3.ForAll([y], z3.Implies(z3.And(self.guard(A, y), body_y), self.eq(A, y, x)))))
+        if name == 'distinct' and len(args) == 1 and literal_list(args[0]) is not None:
+            # library (list.json): distinct on a literal list = its elements are pairwise different
+            es = [tr(e) for e in literal_list(args[0])]
+            T0 = argTs[0].args[0]
+            return z3.And([z3.Not(self.eq(T0, es[i], es[j])) for i in range(len(es)) for j in range(i + 1, len(es))] + [z3.BoolVal(True)])
         if name == 'IF':
             return arith(3, lambda c, a, b: z3.If(c, a, b))
         if name == 'Let':
@@ -335,6 +354,22 @@ class Enc:
                 for _ in range(n):
                     r = r * base
                 return rest(r, 2)
+            if resT.name == 'real' and argTs[1] == resT:
+                # real ^ real with an integer numeral exponent, holpy's convention (data.real.real_eval): x ^ 0 = 1, 0 ^ p = 0 (p != 0),
+                # x ^ (-n) = 1 / x ^ n
+                pv = None
+                try:
+                    pv = ground_eval(ex)
+                except Exception:
+                    pv = None
+                if pv is not None and Fraction(pv).denominator == 1 and abs(pv) <= 64:
+                    n = int(pv)
+                    if n == 0:
+                        return rest(z3.RealVal(1), 2)
+                    r = z3.RealVal(1)
+                    for _ in range(abs(n)):
+                        r = r * base
+                    return rest(r if n > 0 else z3.If(base == 0, z3.RealVal(0), 1 / r), 2)
             raise Unsupported('power with non-numeral or non-nat exponent')
         if name in ('less', 'less_eq', 'greater', 'greater_eq') and len(argTs) == 2 and argTs[0].is_tconst() and argTs[0].name in NUM:
             op = {'less': lambda a, b: a < b, 'less_eq': lambda a, b: a <= b,
@@ -567,6 +602,10 @@ class Fin:
             if name == 'exists':
                 return z3.Or(list(P))
             return z3.PbEq([(p, 1) for p in P], 1)
+        if name == 'distinct' and n == 1 and literal_list(args[0]) is not None:
+            es = [tr(e) for e in literal_list(args[0])]
+            T0 = argTs[0].args[0]
+            return z3.And([z3.Not(self.eq(T0, es[i], es[j])) for i in range(len(es)) for j in range(i + 1, len(es))] + [z3.BoolVal(True)])
         if name == 'IF' and n >= 3:
             return rest(self.ite(argTs[1], tr(args[0]), tr(args[1]), tr(args[2])), 3)
         if name == 'Let' and n >= 2:
@@ -661,6 +700,9 @@ def pyeval(fin, t, interp, env=(), envT=()):
         return env[t.n]
     if t.is_abs():
         return tuple(pyeval(fin, t.body, interp, (d,) + env, (t.var_T,) + envT) for d in fin.elems(t.var_T))
+    if t.fun.is_const() and t.fun.name == 'distinct' and literal_list(t.arg) is not None:
+        vs = [pyeval(fin, e, interp, env, envT) for e in literal_list(t.arg)]
+        return all(vs[i] != vs[j] for i in range(len(vs)) for j in range(i + 1, len(vs)))
     fT = fin.typeof(t.fun, envT)
     return pyapp(fin, fT, pyeval(fin, t.fun, interp, env, envT), pyeval(fin, t.arg, interp, env, envT))
 
@@ -751,6 +793,13 @@ def ground_eval(t):
             return 0 if v[1] == 0 else Fraction(v[0]) / Fraction(v[1])
         if name == 'real_inverse' and rn == 'real':
             return 0 if v[0] == 0 else 1 / Fraction(v[0])
+    if name == 'power' and rn == 'real' and argTs[0] == resT and argTs[1] == resT and Fraction(v[1]).denominator == 1 and abs(v[1]) <= 4096:
+        n = int(v[1])
+        if n == 0:
+            return 1
+        if v[0] == 0:
+            return 0
+        return Fraction(v[0]) ** n
     if name == 'power' and rn in NUM and argTs[0] == resT and argTs[1] == NatType:
         if v[1] > 4096:
             raise Unsupported('huge power')
